@@ -201,6 +201,42 @@ def translate():
     bt_names = [e.id for e in btr[0].value.generators[0].iter.elts]
     need(sorted(bt_names) == sorted(x for x in base if x != "OBJECT"), "BASE_TYPE_NAMES differ from the __base__ classes without OBJECT")
     need(any(ast.unparse(n) == "BASE_TYPE_NAMES = list(BASE_TYPE_RULES.keys())" for n in tree.body), "BASE_TYPE_NAMES changed")
+    # ---- TextXMetaModel.__contains__ / __getitem__
+    ct = find_func(mtree, "__contains__", "TextXMetaModel")
+    body = [x for x in ct.body if not (isinstance(x, ast.Expr) and isinstance(x.value, ast.Constant))]
+    need(len(body) == 1 and isinstance(body[0], ast.Try), "TextXMetaModel.__contains__ is no longer a single try statement")
+    t = body[0]
+    need([ast.unparse(x) for x in t.body] == ["self[name]", "return True"] and len(t.handlers) == 1
+         and ast.unparse(t.handlers[0].type) == "KeyError" and [ast.unparse(x) for x in t.handlers[0].body] == ["return False"]
+         and not t.orelse and not t.finalbody, "TextXMetaModel.__contains__ changed")
+    contains_catches = True
+    gi = find_func(mtree, "__getitem__", "TextXMetaModel")
+    src = ast.unparse(gi)
+    for w in ["namespace, name = name.rsplit('.', 1)", "if namespace in self.referenced_languages:",
+              "referenced_metamodel = metamodel_for_language(language)", "return referenced_metamodel[name]",
+              "return self.namespaces[namespace][name]", "raise KeyError("]:
+        need(w in src, "TextXMetaModel.__getitem__ changed; missing: " + w)
+    # ---- _determine_rule_type: where the class of an alias target comes from
+    fn = find_func(tree, "_determine_rule_type")
+    tg = [n for n in ast.walk(fn) if isinstance(n, ast.Assign) and ast.unparse(n.targets[0]) == "target_cls"]
+    need(len(tg) == 1, "_determine_rule_type: target_cls assignment changed")
+    v = ast.unparse(tg[0].value)
+    need(v in ("rule._tx_class", "metamodel[rule.rule_name]"), "_determine_rule_type: unknown source of target_cls: " + v)
+    ruletype_by_class = v == "rule._tx_class"
+    # ---- visit_textx_rule: `?=` attribute that can collect several values
+    fn = find_func(tree, "visit_textx_rule", "TextXVisitor")
+    loops = [n for n in fn.body if isinstance(n, ast.For) and ast.unparse(n.iter) == "cls._tx_attrs.values()"]
+    boolmany = "None"
+    if loops:
+        need(len(loops) == 1 and len(loops[0].body) == 1 and isinstance(loops[0].body[0], ast.If), "bool/many check changed")
+        test = ast.unparse(loops[0].body[0].test)
+        need(test == "attr.bool_assignment and attr.mult in [MULT_ZEROORMORE, MULT_ONEORMORE]", "bool/many test changed: " + test)
+        need(body_safe(loops[0].body[0].body, SAFE_CALLS), "bool/many check body is not safe")
+        boolmany = "(Some %s)" % raised_class(loops[0].body[0].body)
+        # it must come after the multiplicity walk
+        idx = fn.body.index(loops[0])
+        need(any(ast.unparse(x) == "_update_attr_multiplicities(root_rule, set())" for x in fn.body[:idx]), "bool/many check precedes the multiplicity walk")
+    need("raise TextXSemanticError(" in ast.unparse(fn) and "Can't use bool assignment " in ast.unparse(fn), "bool assignment in repetition check changed")
     # _new_import assertion (the documented exception)
     ni = find_func(mtree, "_new_import", "TextXMetaModel")
     need(any(isinstance(s, ast.Assert) and ast.unparse(s.test) == "self.root_path is not None" for s in ni.body), "_new_import assertion changed")
@@ -214,6 +250,7 @@ def translate():
         "  c_nomatch_handler := %s;" % nomatch_handler,
         "  c_keyerror_handler := %s;" % keyerror_handler,
         "  c_ugroup_guard := %s; c_alias_guard := %s; c_mmm_getitem := %s;" % ("true" if ug_guard else "false", alias_guard, "true" if mmm_getitem else "false"),
+        "  c_contains_catches := %s; c_ruletype_by_class := %s; c_boolmany_check := %s;" % ("true" if contains_catches else "false", "true" if ruletype_by_class else "false", boolmany),
         "  c_base_names := [%s] |}." % "; ".join(coq_codes(n) for n in base),
     ]) + "\n")
     return []
